@@ -36,6 +36,8 @@ var cmdShapes = []struct {
 	{"PING", []string{"tok"}},
 	{"PONG", []string{"srv", "tok"}},
 	{"JOIN", []string{"#new", "acct", "Real Name"}},
+	{"JOIN", []string{"#chan", "*", "Other Name"}},
+	{"005", []string{"me", "EXCEPTS=", "=x", "NETWORK=", "are supported by this server"}},
 	{"PART", []string{"#chan", "bye now"}},
 	{"KICK", []string{"#chan", "alice", "go away"}},
 	{"QUIT", []string{"gone fishing"}},
@@ -255,10 +257,11 @@ func hostileEvent(r *rand.Rand) Ev {
 			}
 		}
 	}
-	if e.Cmd == "JOIN" && len(e.Params) > 0 && strings.HasPrefix(e.Params[0], ":") {
-		// the channel is echoed as a middle parameter of WHO/MODE, where a leading ':' cannot be
-		// told from the trailing marker when the written line is read back by the harness
-		e.Params[0] = "#" + e.Params[0][1:]
+	if e.Cmd == "JOIN" && len(e.Params) > 0 {
+		// the channel is echoed as a middle parameter of WHO/MODE, where a ':' at the start of
+		// a word cannot be told from the trailing marker when the harness reads the line back
+		p := strings.ReplaceAll(" "+e.Params[0], " :", " ;")
+		e.Params[0] = p[1:]
 	}
 	for i, p := range e.Params { // parameters a parser can produce: only the last may hold spaces or be empty
 		if i < len(e.Params)-1 && (p == "" || strings.ContainsAny(p, " ") || p[0] == ':') {
